@@ -104,14 +104,18 @@ def index_of(prop):
 # The theorems of SMV/Src/Tie.lean named in the property's index say that the *expected* scripts mean the
 # engine model; `source_tie` regenerates the scripts from the tree under test and has the kernel decide
 # `Gen.x = Expected.x`.
+_W = ["wrapperCall", "wrapperDunder"]
+_G = ["execAll", "execAsyncAll"]
+_A = ["execCall", "execAsyncCall"]
 SRC_TIE = {
-    "C01": ["triggerSync", "triggerAsync"],
-    "C02": ["activateSync", "activateAsync"],
+    "C01": ["triggerSync", "triggerAsync"] + _W + _G,
+    "C02": ["activateSync", "activateAsync"] + _W + _A,
     "C03": ["processSync", "processAsync"],
-    "C04": ["activateSync", "activateAsync", "processSync", "processAsync"],
-    "C05": ["activateSync", "activateAsync", "triggerSync", "triggerAsync", "processSync", "processAsync"],
+    "C04": ["activateSync", "activateAsync", "processSync", "processAsync"] + _A,
+    "C05": ["activateSync", "activateAsync", "triggerSync", "triggerAsync", "processSync", "processAsync"] + _W + _G + _A,
+    "C08": _W + _G,
     "C11": ["triggerSync", "triggerAsync"],
-    "C14": ["activateSync", "activateAsync"],
+    "C14": ["activateSync", "activateAsync"] + _W + _A,
 }
 TIE_MOD = "SMV.Src.Tie"
 
